@@ -7,7 +7,6 @@ From V Require Export Proofs.Date Proofs.DateIso Proofs.GregorianForms.
 Import ListNotations.
 Open Scope Z_scope.
 Ltac Zify.zify_post_hook ::= Z.to_euclidean_division_equations.
-Set Default Timeout 300.
 
 (** [Datelike::num_days_from_ce] (provided method of src/traits.rs) on the year and ordinal of a date *)
 Theorem datelike_num_days_from_ce_spec y o : year_in_range y = true -> 1 <= o <= 366 ->
